@@ -92,4 +92,9 @@ CHECKS["C12"] = dict(level="model_checking", technique="TLC model checking of th
          "bound by replaying every position of the first step relative to the interval with y' = t^k, whose exact integral (rationals) "
          "reveals both the order and the final time; the 15-point Gauss-Kronrod rule is replayed on t^k, k <= 22, over 16 intervals.",
     note="Unbounded intervals and analytic integrands are not covered; RK2/RK4 are run with steps dividing the interval.", ref="8/C12")
+CHECKS["C33"] = dict(level="exploration", technique="whole-table trace judged by TLC against Unicode.tla (UTF-8 decoding, name grammar, prefix-freeness) + TLC-generated strings",
+    text="The character table is dumped by the harness and judged exhaustively in TLA+ (each name = prefix + hex code point of the decoded "
+         "UTF-8 bytes, names unique / prefix-free / ASCII, encodings independent); TLC-generated strings mixing ASCII and table entries are "
+         "run through getMangledString and the real tfel-unicode-filt binary and compared with the per-item substitution and its inverse.",
+    note="Strings are short (<= 4 items); inputs never contain the mangling prefix (precondition of the statement).", ref="8/C33")
 NOT_APPLICABLE = {}
